@@ -20,7 +20,7 @@ def parse(name):
         return res
     cur = None
     for ln in open(p):
-        m = re.match(r"== ([CE]\d+-[A-Z])", ln)
+        m = re.match(r"== ([CEF]\d+-[A-Z])", ln)
         if m:
             cur = m.group(1)
             res.setdefault(cur, {})
@@ -35,10 +35,13 @@ def parse(name):
 final = parse("matrix_all.txt")
 for k, v in parse("matrix_r4.txt").items():
     final[k] = v
-for k, v in parse("matrix_fix.txt").items():
-    final.setdefault(k, {}).update(v)
+for k, v in parse("matrix_r5.txt").items():
+    final[k] = v
+for name in ("matrix_fix.txt", "matrix_fix5.txt"):
+    for k, v in parse(name).items():
+        final.setdefault(k, {}).update(v)
 first = {}
-for name in ("matrix3.txt", "matrix4.txt", "matrix_r4.txt"):
+for name in ("matrix3.txt", "matrix4.txt", "matrix_r4.txt", "matrix_r5.txt"):
     for k, v in parse(name).items():
         first[k] = v
 summ = json.load(open(os.path.join(V, "seeded", "summaries.json")))
@@ -54,6 +57,9 @@ for d in sorted(os.listdir(os.path.join(V, "seeded"))):
         m = re.search(r"PROPERTY:\s*(C\d+)", notes)
         prop = m.group(1) if m else "?"
         rnd = 4
+    elif d.startswith("F"):
+        prop = "C" + d[1:3]
+        rnd = 5
     else:
         prop = d.split("-")[0]
         rnd = {"A": 1, "B": 1, "C": 2, "D": 3}[d[-1]]
